@@ -190,7 +190,7 @@ def step (s : St) (line : String) : St × String :=
     | some sc, some co, some cs, some mr =>
       let w := s.w.createDelegation { rowId := 0, spaceId := sp, delegator := dor, delegate := dee, actions := csv acts,
                                       scope := sc, conditions := co, constraints := cs, parent := strOf par,
-                                      mayRedelegate := mr }
+                                      parentRow := rowIdOf (strOf par), mayRedelegate := mr }
       ({ s with w := w }, s!"ok {w.delegations.length}")
     | _, _, _, _ => (s, "bad-op")
   | ["revoke_deleg", row] =>
